@@ -360,6 +360,87 @@ def run_template_stream(ctx):
             ctx.validated()
 
 
+# ---------------------------------------------------------------- constants in every position and environment kind
+POS_TEMPLATES = {
+    "if": "{% if @ %}T{% else %}F{% endif %}", "elif": "{% if false %}{% elif @ %}T{% endif %}", "set": "{% set v = @ %}{{ v }}",
+    "set-block": "{% set v %}{{ @ }}{% endset %}{{ v }}", "for-iter": "{% for i in [@, 1] %}{{ i }};{% endfor %}", "for-filter": "{% for i in [1, 2] if @ %}{{ i }}{% endfor %}",
+    "macro-default": "{% macro m(p=@) %}{{ p }}{% endmacro %}{{ m() }}", "macro-body": "{% macro m() %}{{ @ }}{% endmacro %}{{ m() }}|{{ m() }}",
+    "with": "{% with w = @ %}{{ w }}{% endwith %}", "filter-block-arg": "{% filter default(@, true) %}{% endfilter %}", "call-arg": "{{ ff(@)|string }}",
+    "call-block": "{% macro m() %}{{ caller() }}{% endmacro %}{% call m() %}{{ @ }}{% endcall %}", "for-body": "{% for i in [1, 2] %}{{ @ }}{% endfor %}",
+    "static-ae-on": "{% autoescape true %}{{ @ }}{% endautoescape %}", "static-ae-off": "{% autoescape false %}{{ @ }}{% endautoescape %}",
+    "runtime-ae": "{% autoescape yy %}{{ @ }}{% endautoescape %}", "dict-value": "{{ {'k': @}['k'] }}", "test-arg": "{{ 1 is eq(@) }}", "print-stmt": "{% print @ %}",
+    "child-block": None, "include": None, "import": None,
+}
+ENV_KINDS = ["default", "autoescape", "async", "overlay", "template-ctor", "selector-html", "selector-txt"]
+
+
+def pos_render(kind, optimized, pos, esrc, data):
+    """render the expression source esrc in position pos under an environment kind"""
+    import jinja2
+    kw = {"optimized": optimized}
+    name = "t.html" if kind == "selector-html" else "t.txt"
+    if kind == "autoescape":
+        kw["autoescape"] = True
+    if kind == "async":
+        kw["enable_async"] = True
+    if kind.startswith("selector"):
+        kw["autoescape"] = jinja2.select_autoescape(["html"])
+    body = POS_TEMPLATES[pos]
+    files = {}
+    if pos == "child-block":
+        files = {"base": "[{% block b %}{% endblock %}]", name: "{% extends 'base' %}{% block b %}{{ " + esrc + " }}{% endblock %}"}
+    elif pos == "include":
+        files = {"inc": "{{ " + esrc + " }}", name: "<{% include 'inc' %}>"}
+    elif pos == "import":
+        files = {"lib": "{% macro m() %}{{ " + esrc + " }}{% endmacro %}", name: "{% import 'lib' as l %}{{ l.m() }}"}
+    else:
+        files = {name: body.replace("@", esrc)}
+    d = dict(data, yy=True, ff=lambda v: v)
+    try:
+        if kind == "template-ctor" and len(files) == 1:
+            t = jinja2.Template(files[name], **kw)
+        else:
+            env = jinja2.Environment(loader=jinja2.DictLoader(files), **kw)
+            if kind == "overlay":
+                env = env.overlay(lstrip_blocks=True)
+            t = env.get_template(name)
+        if kind == "async":
+            return ("ok", X.run_async(t.render_async(**d)))
+        return ("ok", t.render(**d))
+    except Exception as ex:
+        return ("err", X.err_class(ex))
+
+
+def run_position_stream(ctx):
+    g = X.EGen(ctx.rng, const_rich=True)
+    poss = list(POS_TEMPLATES)
+    n = ctx.size(450, 9000)
+    for i in range(n):
+        e = g.gen(ctx.rng.randint(1, 3)) if i >= len(FIXED) else FIXED[i]
+        pos = poss[i % len(poss)]
+        kind = ENV_KINDS[(i // len(poss) + i) % len(ENV_KINDS)]
+        data = X.make_data(random.Random(i), [])
+        src = "(" + X.to_src(e) + ")"
+        acc = {}
+        lsrc = "(" + X.to_src(lift_leaves(e, acc)) + ")"
+        base = pos_render(kind, True, pos, src, data)
+        others = [("unoptimized", pos_render(kind, False, pos, src, data))]
+        if acc:
+            others.append(("literals-lifted", pos_render(kind, True, pos, lsrc, dict(data, **acc))))
+        ok = True
+        for label, r in others:
+            if r != base and not (r[0] == "err" and base[0] == "err"):
+                ok = False
+                ctx.reject({"kind": "position", "position": pos, "env": kind, "expr": src, "tree": repr(e), "base": repr(base), "other": repr((label, r))},
+                           f"position {pos}, environment {kind}: render(optimized) = {base!r} but render({label}) = {r!r} for {src}",
+                           "C08:position:" + pos + ":" + kind + ":" + src)
+        ctx.case(key=("pos", pos, kind, src))
+        ctx.count("position_" + pos)
+        ctx.count("envkind_" + kind)
+        if ok:
+            ctx.validated()
+
+
 def run(ctx):
     X.use_jinja()
     ctx.extra["rule"] = RULE
@@ -370,6 +451,7 @@ def run(ctx):
     ]
     ctx.proof("C08")
     run_template_stream(ctx)
+    run_position_stream(ctx)
     depth = ctx.size(4, 5)
     n = ctx.size(700, 15000)
     g = X.EGen(ctx.rng, const_rich=True)
